@@ -10,6 +10,8 @@ import ElysModel.Gen.Arith.calculateTokenARate
 import ElysModel.Gen.Arith.absDifferenceWithSign
 import ElysModel.Gen.Arith.getWeightBreakingFee
 import ElysModel.Gen.Arith.Table
+import ElysModel.Gen.Arith.applyDiscount
+import ElysModel.Lemmas.Stable
 import ElysModel.Amm.Oracle
 namespace Elys.Amm.C03Src
 open Elys Elys.Amm
@@ -38,5 +40,25 @@ theorem gen_weightBreakingFee (fi fo ti to ii io dd : Int) (pr : OParams) :
 /-- what `GetWeightBreakingFee` reads besides its arguments: the two amm parameters, in this order. -/
 theorem gen_free_weightBreakingFee :
     Gen.Arith.freeOf "getWeightBreakingFee" = ["#7.WeightBreakingFeeMultiplier", "#7.WeightBreakingFeeExponent"] := by decide
+
+/-- a fee discount between 0 and 100 %, as the source applies it now, never raises the swap fee and never makes it negative. -/
+theorem discount_lowers_fee (fee d r : Int) (hf : 0 ≤ fee) (hd : 0 ≤ d ∧ d ≤ P)
+    (h : Gen.Arith.applyDiscount fee d = .ok r) : 0 ≤ r ∧ r ≤ fee := by
+  unfold Gen.Arith.applyDiscount at h
+  obtain ⟨t1, h1, h⟩ := bind_ok h
+  obtain ⟨t2, h2, h⟩ := bind_ok h
+  cases h
+  have e1 := chk_ok h1
+  unfold mulC at h2
+  have e2 := chk_ok h2
+  subst e1 e2
+  unfold Dec.mul
+  have hx : 0 ≤ fee * (P - d) := Int.mul_nonneg hf (by omega)
+  have hy : fee * (P - d) ≤ fee * P := Int.mul_le_mul_of_nonneg_left (by omega) hf
+  constructor
+  · have := Stable.round2_mono (x := 0) (y := fee * (P - d)) (by omega) hx
+    simpa [round2, roundNonneg] using this
+  · have := Stable.round2_mono hx hy
+    rwa [Stable.round2_mul_P] at this
 
 end Elys.Amm.C03Src
